@@ -97,7 +97,9 @@ func roundTrip(c *core.Ctx, t reflect.Type, v reflect.Value) error {
 	if err := tlbgen.Equal(want, out.Elem()); err != nil {
 		return fmt.Errorf("%s: decode(encode(v)) != v: %v\nvalue: %s", name, err, render(v))
 	}
-	// encode the decoded value again: same cell
+	// encode the decoded value again: same cell. A caller may have read from the bit strings and cells the
+	// value holds in the meantime (read cursors are not part of the value), so they are moved first.
+	disturbCursors(out.Elem(), 0)
 	again := out.Elem()
 	if t == vmStackT {
 		again = reflect.ValueOf(reverseStack(out.Elem().Interface().(tlb.VmStack)))
@@ -117,6 +119,56 @@ func roundTrip(c *core.Ctx, t reflect.Type, v reflect.Value) error {
 		c.NonTrivial(name, key1)
 	}
 	return nil
+}
+
+var (
+	bitStringT = reflect.TypeOf(boc.BitString{})
+	cellT      = reflect.TypeOf(boc.Cell{})
+	anyT       = reflect.TypeOf(tlb.Any{})
+)
+
+// disturbCursors moves the read cursor of every addressable BitString / Cell / Any found inside v.
+func disturbCursors(v reflect.Value, depth int) {
+	if depth > 10 {
+		return
+	}
+	switch v.Kind() {
+	case reflect.Pointer:
+		if !v.IsNil() {
+			disturbCursors(v.Elem(), depth+1)
+		}
+	case reflect.Struct:
+		if v.CanAddr() {
+			switch v.Type() {
+			case bitStringT:
+				v.Addr().Interface().(*boc.BitString).ReadBit()
+				return
+			case cellT:
+				// bit cursor only: a cell used as a slice (tlb.Any) takes its remaining references from the
+				// reference cursor by design of CopyRemaining/Any, so that cursor is part of the value
+				v.Addr().Interface().(*boc.Cell).ReadBit()
+				return
+			case anyT:
+				(*boc.Cell)(v.Addr().Interface().(*tlb.Any)).ReadBit()
+				return
+			}
+		}
+		if v.Type().ConvertibleTo(bitStringT) && v.Type() != bitStringT {
+			// SnakeData and friends are bit strings consumed from their cursor by their own encoder: left alone
+			return
+		}
+		if st := v.FieldByName("SumType"); st.IsValid() && st.Kind() == reflect.String && st.String() != "" {
+			if f := v.FieldByName(st.String()); f.IsValid() {
+				disturbCursors(f, depth+1)
+				return
+			}
+		}
+		for i := 0; i < v.NumField(); i++ {
+			if v.Type().Field(i).IsExported() {
+				disturbCursors(v.Field(i), depth+1)
+			}
+		}
+	}
 }
 
 func render(v reflect.Value) string {
